@@ -28,9 +28,21 @@ before they existed - the three known/C12-F13-*.json - execute identically):
   aux     a second OutputAsync ('wait', stop_data only) busy at stop: the simulator waits for
           the blocks one after the other (longest stop_timeout first, time-outs counted from
           a common start), so a wrongly computed remaining time hits the block awaited second.
+  stopper  shutdown() is awaited by a helper task that is cancelled at stop_at + dt; main only
+          waits for the simulation task: cancelling the caller must not disturb the clean-up;
+  sfail   one more on_success recipient (before or after the recorder) whose filter or
+          handler raises for some results. The fault is in a user callback: once it fired
+          only "never two results for one put, result kind = run outcome, original data" is
+          judged (degraded mode; the original lets the exception escape the output task:
+          wait mode / failing handler -> simulation aborted, no guard sleep for that run);
+  slowinit an InitAsync block with a slow init_async; main does not wait for wait_init():
+          puts are sent (legal: is_ready()) while the simulator waits for that block, runs
+          are active when the initialization completes. Always ends before the stop.
 
 Sensitivity (scratch copies of /repo, quick tier or less):
-  seeded C12-s1..s9 (seeded/*/patch.diff)                                   all caught
+  seeded C12-s1..s12 (seeded/*/patch.diff)                                  all caught
+    s10 needs sfail ('duplicate-result', 'wrong-result-kind'), s11 needs stopper,
+    s12 needs slowinit ('output-walk', 'output-not-active-count')
     s8 (repeated abort() cancels the clean-up): needs term2                 caught, ~1 % of runs
     s9 (_run_tasks measures the elapsed time with time.time()): needs aux + wjumps
         'stop-data-not-processed/second-block', 'cancelled-without-newer-put', ...   caught
@@ -61,7 +73,9 @@ RULE = ("one run = one OutputAsync block (mode x guard_time x stop_data x stop_t
         "(duration, failure, slow cancellation) x stop instant x loop knobs; random runs "
         "optionally add (independently) a second source of termination requests (driver at "
         "stop+dt or wired to on_error/on_success), 1-2 clock stalls, 1-2 wall clock steps, a "
-        "second OutputAsync busy at stop; run indices below "
+        "second OutputAsync busy at stop, shutdown() awaited by a helper task cancelled in the "
+        "clean-up, an on_success recipient that raises for some results, another block with a "
+        "slow init_async (puts during the initialization); run indices below "
         "6000 walk mode x guard x stop_data x (arrival pattern of <=3 puts on the grid) "
         "systematically; non-trivial = at least two puts whose handling overlapped in time "
         "(second arrived before the first finished incl. guard) or a stop with work pending; "
@@ -74,7 +88,9 @@ REACH_EXPECTED = ['same_instant_puts', 'put_during_run', 'put_during_guard', 'ca
                   'stall_during_run', 'stall_during_cleanup', 'stall_over_run_end',
                   'stall_over_stop_timeout', 'wall_jump_during_run',
                   'wall_jump_during_cleanup', 'wall_jump_two_blocks_in_cleanup',
-                  'two_blocks_busy_at_stop']
+                  'two_blocks_busy_at_stop', 'shutdown_caller_cancelled_work_pending',
+                  'on_success_delivery_failed', 'put_during_slow_init',
+                  'run_active_at_init_end']
 ASSUMPTIONS = [
     "the guard sleep belongs to the output task: the output stays incremented during it "
     "(docs: 'the number of active output tasks'); bounds are checked, not the exact instant",
@@ -87,6 +103,10 @@ ASSUMPTIONS = [
     "their own window as extra slack, lower bounds and exactly-once/order clauses get none; "
     "in the generous stratum stop_timeout is raised by the total stall length",
     "a step of the wall clock changes nothing (no allowance)",
+    "an on_success recipient/filter that raises is a fault of a user callback: from then on "
+    "only 'never two results for one put', result kind and result data are judged",
+    "external events are legal as soon as Circuit.is_ready() is true, i.e. also while the "
+    "simulator waits for another block's init_async (the block is then initialized early)",
 ]
 
 GRID = [0.0, 0.1, 0.2, 0.3, 0.5, 0.7, 1.0, 1.5]
@@ -231,6 +251,31 @@ def gen_extras(rng, plan):
             durs = [0.02, 0.05, 0.2, 0.5, 1.2]
             extra = rng.choice([-1.0, 0.0, 0.0, 1.0])
         plan['aux'] = {'dur': rng.choice(durs), 'extra_timeout': extra}
+    # ---- round 4 (drawn after the older ones, which therefore stay what they were)
+    wired = plan.get('term2', {}).get('kind') in ('on_error_abort', 'on_success_shutdown')
+    if rng.random() < 0.12:
+        # shutdown() is awaited by a helper task which gets cancelled during the clean-up
+        plan['stopper'] = {'cancel_dt': rng.choice([0.001, 0.02, 0.05, 0.1, 0.15, 0.25, 0.4,
+                                                    0.8])}
+    if rng.random() < 0.08:
+        # one more on_success recipient; the delivery raises for some of the results
+        ids = [p['id'] for p in puts if rng.random() < 0.5]
+        if plan['stop_data'] and rng.random() < 0.3:
+            ids.append('STOP')
+        if not ids and puts:
+            ids = [rng.choice(puts)['id']]
+        plan['sfail'] = {'kind': rng.choice(['filter', 'filter', 'handler']),
+                         'first': rng.random() < 0.3, 'ids': ids}
+        for p in puts:
+            if p['id'] in ids and rng.random() < 0.6:
+                p['fail'] = False
+    if rng.random() < 0.12 and puts and not wired and 'sfail' not in plan:
+        # another block with a slow init_async: puts are legal (and sent) during that window
+        room = stop_at - 0.05 - sum(s['dur'] for s in plan.get('stalls', ()))
+        cands = [round(p['t'] + x, 6) for p in puts for x in (0.001, 0.05, 0.15, 0.4, 0.8)]
+        cands = [d for d in cands if d <= room]
+        if cands:
+            plan['slowinit'] = {'dur': rng.choice(cands)}
 
 
 def execute(plan, trace=False):
@@ -259,6 +304,10 @@ def execute(plan, trace=False):
         harness_tasks = []
         if t2kind not in (None,) + tuple(TERM2_KINDS):
             raise PlanError('unknown term2 kind')
+        stopper = plan.get('stopper')
+        sfail = plan.get('sfail')
+        slowinit = plan.get('slowinit')
+        st.update(helper=None, helper_cancels=[], sfail_fired=False, init_end_ns=None)
 
         def note_term(src, err=None):
             """A termination request is being issued right now."""
@@ -334,6 +383,40 @@ def execute(plan, trace=False):
         on_success = [edzed.Event(recorder, 'success')]
         on_error = [edzed.Event(recorder, 'error')]
         ev_ctrl = None
+        if sfail:
+            bad_ids = list(sfail['ids'])
+
+            def poisoned(data):
+                put = data.get('put') or {}
+                ident = 'STOP' if shape == 'empty' and not put else put.get('value')
+                if data.get('trigger') == 'success' and ident in bad_ids:
+                    st['sfail_fired'] = True
+                    run.fired('fault:user_fn_raises:on_success_' + sfail['kind'])
+                    run.log('sfail', ident)
+                    raise Injected(f"on_success recipient cannot cope with {ident}")
+
+            def rec2(_rec, _etype, data):
+                poisoned(data)
+
+            def flt(data):
+                poisoned(data)
+                return data
+            try:
+                recorder2 = fsmlib.Recorder('rec2', x_sink=rec2)
+                if sfail['kind'] == 'filter':
+                    ev2 = edzed.Event(recorder2, 'succ2', efilter=flt)
+                elif sfail['kind'] == 'handler':
+                    ev2 = edzed.Event(recorder2, 'succ2')
+                else:
+                    raise PlanError('unknown sfail kind')
+            except PlanError:
+                raise
+            except Exception as err:
+                raise PlanError(f"Event: {err}") from None
+            if sfail.get('first'):
+                on_success.insert(0, ev2)
+            else:
+                on_success.append(ev2)
         try:
             if t2kind == 'on_error_abort':
                 on_error.append(edzed.Event.abort())
@@ -377,6 +460,16 @@ def execute(plan, trace=False):
                     stop_timeout=round(plan['stop_timeout'] + aux['extra_timeout'], 6))
             except Exception as err:
                 raise PlanError(f"OutputAsync: {err}") from None
+        if slowinit:
+            async def slow_init():
+                await asyncio.sleep(slowinit['dur'])
+                st['init_end_ns'] = loop._ns
+                run.log('slow-init-done')
+                return 'cfg'
+            try:
+                edzed.InitAsync('cfg', init_coro=[slow_init], init_timeout=slowinit['dur'] + 30.0)
+            except Exception as err:
+                raise PlanError(f"InitAsync: {err}") from None
         circuit = edzed.get_circuit()
         slack_ns = plan['knobs']['latency_ns'] * 4 + plan['knobs']['cost_ns'] * 60 + 2000
         guard_ns = int(round(guard * 1e9))
@@ -389,6 +482,11 @@ def execute(plan, trace=False):
         def quiescent():
             if st['end_ns'] is not None or circuit.error is not None or not circuit.is_ready():
                 return
+            if st['sfail_fired']:
+                return      # a user callback failed: only "never two results" is judged
+            if slowinit and blk.output is edzed.UNDEF and st['init_end_ns'] is None \
+                    and not any(e[1] == 'put' for e in hist):
+                return      # not initialized yet: no event so far, other block's init_async
             now = loop._ns
             begun = {}
             ended = {}
@@ -470,12 +568,40 @@ def execute(plan, trace=False):
         def sim_done(_task):
             st['sim_end_ns'] = loop._ns
 
+        def stop_called():
+            h('stop-called', None)
+            if st['stop_ns'] is None:
+                st['stop_ns'] = loop._ns
+            elif not over():
+                run.fired('fault:second_terminate')
+                terms.append([len(hist), loop._ns, 'main'])
+
+        async def shutdown_helper():
+            stop_called()
+            st['helper_started'] = True
+            await circuit.shutdown()
+
+        def cancel_helper():
+            helper = st['helper']
+            if helper is None or helper.done() or over() or not st.get('helper_started'):
+                return      # (a task cancelled before its first step would never call shutdown)
+            run.fired('fault:shutdown_caller_cancelled')
+            h('helper-cancelled', None)
+            st['helper_cancels'].append([len(hist), loop._ns])
+            helper.cancel()
+
         async def main():
             simtask = asyncio.create_task(circuit.run_forever())
-            await circuit.wait_init()
-            if term2:
+            if slowinit:
+                # external events are legal as soon as the circuit is ready: do not wait
+                await asyncio.sleep(0)
+            else:
+                await circuit.wait_init()
+            if term2 or stopper:
                 # only then: old plans must not see one more callback (cost knob draws)
                 simtask.add_done_callback(sim_done)
+            if stopper:
+                run.at(plan['stop_at'] + stopper['cancel_dt'], cancel_helper)
             for p in plan['puts']:
                 run.at(p['t'], do_put, p)
             fut = loop.create_future()
@@ -487,17 +613,21 @@ def execute(plan, trace=False):
             for j in plan.get('wjumps', ()):
                 run.at(j['t'], do_wjump, j)
             await fut
-            h('stop-called', None)
-            if st['stop_ns'] is None:
-                st['stop_ns'] = loop._ns
-            elif not over():
-                run.fired('fault:second_terminate')
-                terms.append([len(hist), loop._ns, 'main'])
             err = None
-            try:
-                await circuit.shutdown()
-            except Exception as exc:    # pylint: disable=broad-except
-                err = exc
+            if stopper:
+                # the caller of shutdown() gets cancelled; the simulation must finish its
+                # clean-up on its own
+                st['helper'] = asyncio.ensure_future(shutdown_helper())
+                harness_tasks.append(st['helper'])
+                await asyncio.wait([simtask])
+                if not simtask.cancelled():
+                    err = simtask.exception()
+            else:
+                stop_called()
+                try:
+                    await circuit.shutdown()
+                except Exception as exc:    # pylint: disable=broad-except
+                    err = exc
             st['end_ns'] = loop._ns if st['sim_end_ns'] is None else st['sim_end_ns']
             h('sim-end', None, canon(err))
             # "the exception that stopped the simulation is raised": the first request counts
@@ -509,7 +639,7 @@ def execute(plan, trace=False):
                       and isinstance(err.__cause__, Injected))
             else:
                 ok = err is None
-            if not ok:
+            if not ok and not st['sfail_fired']:
                 run.violate('C12/simulation-error',
                             f"the simulation ended with {canon(err)}, stopped by {src}")
             await asyncio.sleep(0)
@@ -518,15 +648,16 @@ def execute(plan, trace=False):
         run.run(main())
         if run.harness_error is None and st['end_ns'] is not None:
             judge(run, plan, hist, st, slack_ns, guard_ns)
-            judge_extras(run, plan, hist, st, stalls, wjumps, terms, auxh)
-            pend = run.pending_tasks(exclude=harness_tasks)
+            if not st['sfail_fired']:
+                judge_extras(run, plan, hist, st, stalls, wjumps, terms, auxh)
+            pend = run.pending_tasks(exclude=harness_tasks) if not st['sfail_fired'] else None
             if pend:
                 run.violate(f"C12/task-left-behind/{'tight' if plan['tight'] else 'generous'}",
                             f"tasks still pending after the stop: {pend}")
             n0 = len(hist)
             n1 = len(auxh)
             run.run_more(60.0)
-            if len(hist) > n0 or len(auxh) > n1:
+            if (len(hist) > n0 or len(auxh) > n1) and not st['sfail_fired']:
                 run.violate('C12/activity-after-stop',
                             "output activity after the simulation ended: "
                             f"{(hist[n0:] + auxh[n1:])[:3]}")
@@ -542,7 +673,10 @@ def execute(plan, trace=False):
 
 def judge(run, plan, hist, st, slack_ns, guard_ns):
     mode = plan['mode']
-    tight = plan['tight']
+    # the delivery of an on_success event raised (fault in a user callback): what the block
+    # does afterwards is nowhere promised; only "never two results for one put" is judged
+    degraded = bool(st.get('sfail_fired'))
+    tight = plan['tight'] or degraded
     stalled = st.get('stalled') or (lambda a, b: 0)
     puts = [e for e in hist if e[1] == 'put']
     order = [e[2] for e in puts]
@@ -592,8 +726,15 @@ def judge(run, plan, hist, st, slack_ns, guard_ns):
         if rtype == 'success' and rvalue != (ident if ident == 'STOP' else ident * 10):
             run.violate('C12/result-data', f"put {ident}: success value {rvalue}")
     for ident in results:
-        if ident not in order:
+        if ident not in order and not (degraded and ident == 'STOP'):
             run.violate('C12/result-for-unknown-put', f"result for {ident}")
+    if degraded:
+        run.fired('reach:on_success_delivery_failed')
+        run.stats['nontrivial'] += 1
+        run.beh(mode, 'degraded', plan['sfail']['kind'], bool(plan['sfail'].get('first')),
+                [(e[1], e[3][0] if e[1] == 'result' else (e[3] if e[1] == 'end' else None))
+                 for e in hist if e[1] != 'out'])
+        return
     # ---- mode discipline
     seq = sorted(begins, key=lambda i: begins[i])
     if mode in ('wait', 'cancel'):
@@ -798,6 +939,17 @@ def judge_extras(run, plan, hist, st, stalls, wjumps, terms, auxh):
                 run.fired('reach:wall_jump_two_blocks_in_cleanup')
     if aux and any(i for i in idents if i not in ends or ends[i] > stop_ns):
         run.fired('reach:two_blocks_busy_at_stop')
+    for idx, t in st.get('helper_cancels', ()):
+        if any(first_result.get(i, len(hist)) >= idx for i in idents):
+            run.fired('reach:shutdown_caller_cancelled_work_pending')
+    init_end = st.get('init_end_ns')
+    if init_end is not None:
+        if any(e[1] == 'put' and e[0] < init_end for e in hist):
+            run.fired('reach:put_during_slow_init')
+        if any(begins[i] < init_end < ends.get(i, end_ns) for i in begins):
+            run.fired('reach:run_active_at_init_end')
     if plan.get('term2') or stalls or wjumps or aux:
         run.beh('extras', (plan.get('term2') or {}).get('kind'), [src for _, _, src in terms],
                 len(stalls), [d > 0 for _, d in wjumps], bool(aux))
+    if st.get('helper_cancels') or init_end is not None:
+        run.beh('extras4', len(st.get('helper_cancels', ())), init_end is not None)
